@@ -206,6 +206,45 @@ type c17Origin struct {
 
 func (o *c17Origin) handler(w http.ResponseWriter, r *http.Request) {
 	if strings.HasPrefix(r.URL.Path, "/dl") {
+		// exchanges that PRECEDE the download, each with a body of its own
+		q := r.URL.Query()
+		if q.Get("interim") == "1" {
+			w.Header().Set("Link", "</style.css>; rel=preload")
+			w.WriteHeader(103)
+			w.Header().Del("Link")
+		}
+		if h, _ := strconv.Atoi(q.Get("hops")); h > 0 { // a redirect hop
+			code, _ := strconv.Atoi(q.Get("code"))
+			size, _ := strconv.Atoi(q.Get("hopsize"))
+			q.Set("hops", strconv.Itoa(h-1))
+			w.Header().Set("Location", r.URL.Path+"?"+q.Encode())
+			w.Header().Set("Content-Type", "text/html")
+			w.WriteHeader(code)
+			w.Write(bytes.Repeat([]byte("R"), size))
+			return
+		}
+		if u := q.Get("usize"); u != "" && !strings.HasPrefix(r.Header.Get("Authorization"), "Digest ") { // a digest challenge
+			size, _ := strconv.Atoi(u)
+			w.Header().Set("WWW-Authenticate", `Digest realm="c17", nonce="dcd98b7102dd2f0e8b11d0f600bfb0c093", qop="auth", algorithm=MD5, opaque="5ccc069c403ebaf9f0171e9517f40e41"`)
+			w.WriteHeader(401)
+			w.Write(bytes.Repeat([]byte("U"), size))
+			return
+		}
+		if e := q.Get("esize"); e != "" { // the first attempt of this id fails with a body
+			o.mu.Lock()
+			if o.flaky == nil {
+				o.flaky = map[string]int{}
+			}
+			o.flaky["dl"+q.Get("id")]++
+			first := o.flaky["dl"+q.Get("id")] == 1
+			o.mu.Unlock()
+			if first {
+				size, _ := strconv.Atoi(e)
+				w.WriteHeader(503)
+				w.Write(bytes.Repeat([]byte("E"), size))
+				return
+			}
+		}
 		o.mu.Lock()
 		b := o.dl[r.URL.Query().Get("id")]
 		chunked := r.URL.Query().Get("chunked") == "1"
